@@ -15,7 +15,50 @@ import (
 )
 
 //invokeAfterMsg#cb9f372d {X:Type} msg_id:long query:!X = X;
+
+type InvokeAfterMsgParams struct {
+	MsgID int64
+	Query tl.Object
+}
+
+func (*InvokeAfterMsgParams) CRC() uint32 {
+	return 0xcb9f372d //nolint:gomnd not magic
+}
+
+func (m *Client) InvokeAfterMsg(msgID int64, query tl.Object) (tl.Object, error) {
+	data, err := m.MakeRequest(&InvokeAfterMsgParams{
+		MsgID: msgID,
+		Query: query,
+	})
+	if err != nil {
+		return nil, errors.Wrap(err, "sending InvokeAfterMsg")
+	}
+
+	return data.(tl.Object), nil
+}
+
 //invokeAfterMsgs#3dc4b4f0 {X:Type} msg_ids:Vector<long> query:!X = X;
+
+type InvokeAfterMsgsParams struct {
+	MsgIDs []int64
+	Query  tl.Object
+}
+
+func (*InvokeAfterMsgsParams) CRC() uint32 {
+	return 0x3dc4b4f0 //nolint:gomnd not magic
+}
+
+func (m *Client) InvokeAfterMsgs(msgIDs []int64, query tl.Object) (tl.Object, error) {
+	data, err := m.MakeRequest(&InvokeAfterMsgsParams{
+		MsgIDs: msgIDs,
+		Query:  query,
+	})
+	if err != nil {
+		return nil, errors.Wrap(err, "sending InvokeAfterMsgs")
+	}
+
+	return data.(tl.Object), nil
+}
 
 type InitConnectionParams struct {
 	ApiID          int32             // Application identifier (see. App configuration)
@@ -69,7 +112,48 @@ func (m *Client) InvokeWithLayer(layer int, query tl.Object) (tl.Object, error) 
 }
 
 //invokeWithoutUpdates#bf9459b7 {X:Type} query:!X = X;
+
+type InvokeWithoutUpdatesParams struct {
+	Query tl.Object
+}
+
+func (*InvokeWithoutUpdatesParams) CRC() uint32 {
+	return 0xbf9459b7 //nolint:gomnd not magic
+}
+
+func (m *Client) InvokeWithoutUpdates(query tl.Object) (tl.Object, error) {
+	data, err := m.MakeRequest(&InvokeWithoutUpdatesParams{
+		Query: query,
+	})
+	if err != nil {
+		return nil, errors.Wrap(err, "sending InvokeWithoutUpdates")
+	}
+
+	return data.(tl.Object), nil
+}
+
 //invokeWithMessagesRange#365275f2 {X:Type} range:MessageRange query:!X = X;
+
+type InvokeWithMessagesRangeParams struct {
+	Range *MessageRange
+	Query tl.Object
+}
+
+func (*InvokeWithMessagesRangeParams) CRC() uint32 {
+	return 0x365275f2 //nolint:gomnd not magic
+}
+
+func (m *Client) InvokeWithMessagesRange(msgRange *MessageRange, query tl.Object) (tl.Object, error) {
+	data, err := m.MakeRequest(&InvokeWithMessagesRangeParams{
+		Range: msgRange,
+		Query: query,
+	})
+	if err != nil {
+		return nil, errors.Wrap(err, "sending InvokeWithMessagesRange")
+	}
+
+	return data.(tl.Object), nil
+}
 
 type InvokeWithTakeoutParams struct {
 	TakeoutID int64
